@@ -186,7 +186,7 @@ class Ctx:
 
 
 SPEC_BUILTINS = {"requires", "ensures", "raises", "modifies", "reads", "types", "returns", "invariant",
-                 "decreases", "ghost", "assume_contract", "may_raise", "pure", "foreach", "bounded",
+                 "decreases", "ghost", "assume_contract", "may_raise", "pure", "foreach", "bounded", "shares",
                  "names_distinct"}
 
 
@@ -470,21 +470,20 @@ class Exec:
         if isinstance(v.ty, TUnion):
             tag = self.app(v.name + "!tag", z3.IntSort(), v.binders)
             alts = []
-            allowed = []
-            for i, cty in enumerate(CANON):
+            extra = [a for a in v.ty.alts if not any(type(a) is type(c) for c in CANON)]
+            all_tys = list(CANON) + extra
+            for i, cty in enumerate(all_tys):
                 inner = self.mk_abstract(cty, f"{v.name}!as{i}", v.binders)
+                if isinstance(inner, H):
+                    rn = f"{v.name}!as{i}" + "".join("|" + b.sexpr() for b in v.binders)
+                    inner = self.alloc_named(st, inner, rn)
                 alts.append((cty, inner))
-                if any(type(a) is type(cty) for a in v.ty.alts):
-                    allowed.append(tag == i)
-            for a in v.ty.alts:
-                if not any(type(a) is type(c) for c in CANON):
-                    raise Unsupported(f"alternative {a} in a Union type")
             akey = ("unionax", v.name)
             if akey not in st.ghost:
                 st.ghost[akey] = True
                 xs = [z3.Const(f"ux!{i}", b.sort()) for i, b in enumerate(v.binders)]
                 tg = self.app(v.name + "!tag", z3.IntSort(), tuple(xs))
-                body = t_or(*[tg == i for i, cty in enumerate(CANON) if any(type(a) is type(cty) for a in v.ty.alts)])
+                body = t_or(*[tg == i for i, cty in enumerate(all_tys) if any(a == cty or (i < 5 and type(a) is type(cty)) for a in v.ty.alts)])
                 st.axioms.append(z3.ForAll(xs, body) if xs else body)
             return VDyn(tag, alts, v.name)
         raise Unsupported("lazy value")
@@ -510,7 +509,13 @@ class Exec:
         return VRef(pre.root, pre.path + (ref.path[-1],))
 
     def check_alias_hazard(self, st, ref):
-        for (r, p) in st.aliases:
+        for al in st.aliases:
+            r, p = al[0], al[1]
+            if len(al) > 2 and al[2] == "shallow":
+                # shallow copy: rebinding a field is fine, mutating a shared nested container is not
+                if r == ref.root and self.path_prefix(p, ref.path) and len(ref.path) - len(p) >= 2:
+                    raise Unsupported(f"in-place update below a shallow copy ({ref!r})")
+                continue
             if r == ref.root and (self.path_prefix(p, ref.path) or self.path_prefix(ref.path, p)):
                 raise Unsupported(f"in-place update of an object that was stored by value elsewhere ({ref!r})")
 
@@ -553,18 +558,22 @@ class Exec:
                 return cur.with_field(x, self.upd(st, child, rest, new))
             return cur.with_field(x, self.as_stored(st, new, by_value=False))
         # key step
+        if isinstance(cur, HPyDict) and not pyconst(x)[0]:
+            cur = self.abstract_dict(st, cur, x, None if rest else new)
         if isinstance(cur, HDict):
             kt = self.lower(x, cur.kty)
             eq = cur.binder == kt
             if rest:
+                if cur.val is None:
+                    raise Unsupported("nested store into an empty dictionary of unknown value shape")
                 child = subst(cur.val, [(cur.binder, kt)])
                 if cur.default is not None:
                     child = self.v_ite(subst(cur.dom, [(cur.binder, kt)]), child, self.default_h(cur))
                 newchild = self.upd(st, child, rest, new)
             else:
                 newchild = self.as_stored(st, new, by_value=True)
-            return HDict(cur.kty, cur.binder, z3.simplify(t_or(cur.dom, eq)), self.v_ite(eq, newchild, cur.val),
-                         cur.default, cur.vty)
+            newval = newchild if cur.val is None else self.v_ite(eq, newchild, cur.val)
+            return HDict(cur.kty, cur.binder, z3.simplify(t_or(cur.dom, eq)), newval, cur.default, cur.vty)
         if isinstance(cur, HPyDict):
             items = list(cur.items)
             for i, (k, v) in enumerate(items):
@@ -597,6 +606,19 @@ class Exec:
             newchild = self.upd(st, child, rest, new) if rest else self.as_stored(st, new, True)
             return HListC(cur.length, cur.binder, self.v_ite(eq, newchild, cur.elem), cur.elem_ty)
         raise Unsupported(f"store into {type(cur).__name__}")
+
+    def abstract_dict(self, st, h, key, v):
+        """Concrete dict that receives a symbolic key: switch to the comprehension-shaped form."""
+        kty = self.type_of(key)
+        b = z3.Const(f"dk!{next(self.ctx.counter)}", kty.sort())
+        dom = z3.BoolVal(False)
+        val = None
+        for k, x in h.items:
+            kt = self.lower(k, kty)
+            xv = self.resolve(st, x) if isinstance(x, VRef) else x
+            dom = t_or(dom, b == kt)
+            val = xv if val is None else self.v_ite(b == kt, xv, val)
+        return HDict(kty, b, dom, val, h.default, None)
 
     def default_h(self, d):
         if d.default == "list":
@@ -645,11 +667,19 @@ class Exec:
             return HSeq(b.elem_ty, t_ite(c, z3.Empty(b.t.sort()), b.t))
         if isinstance(a, HDict) and isinstance(b, HDict):
             bb = subst(b, [(b.binder, a.binder)]) if not a.binder.eq(b.binder) else b
-            return HDict(a.kty, a.binder, t_ite(c, a.dom, bb.dom), self.v_ite(c, a.val, bb.val), a.default, a.vty)
+            if a.val is None or bb.val is None:
+                val = a.val if bb.val is None else bb.val
+            else:
+                val = self.v_ite(c, a.val, bb.val)
+            return HDict(a.kty, a.binder, t_ite(c, a.dom, bb.dom), val, a.default, a.vty)
+        if isinstance(a, HPyDict) and isinstance(b, HPyDict) and not a.items and not b.items:
+            return a
+        if isinstance(a, HList) and isinstance(b, HList) and not a.items and not b.items:
+            return a
         if isinstance(a, HPyDict) and not a.items and isinstance(b, HDict):
-            return HDict(b.kty, b.binder, t_ite(c, z3.BoolVal(False), b.dom), b.val, b.default, b.vty)
+            return HDict(b.kty, b.binder, z3.simplify(t_ite(c, z3.BoolVal(False), b.dom)), b.val, b.default, b.vty)
         if isinstance(b, HPyDict) and not b.items and isinstance(a, HDict):
-            return HDict(a.kty, a.binder, t_ite(c, a.dom, z3.BoolVal(False)), a.val, a.default, a.vty)
+            return HDict(a.kty, a.binder, z3.simplify(t_ite(c, a.dom, z3.BoolVal(False))), a.val, a.default, a.vty)
         if isinstance(a, HSet) and isinstance(b, HSet):
             bb = subst(b, [(b.binder, a.binder)]) if not a.binder.eq(b.binder) else b
             return HSet(a.kty, a.binder, t_ite(c, a.mem, bb.mem))
@@ -678,7 +708,7 @@ class Exec:
         if isinstance(a, VRef) and isinstance(b, VRef) and a.root == b.root and a.path == b.path:
             return a
         da, db = to_dyn(a), to_dyn(b)
-        if da is not None and db is not None:
+        if da is not None and db is not None and len(da.alts) == len(db.alts):
             return VDyn(t_ite(c, da.tag, db.tag), [(ty, self.v_ite(c, x, y)) for (ty, x), (_, y) in zip(da.alts, db.alts)], da.name or db.name)
         # shapes differ: cannot merge symbolically -> fork on the condition
         raise NeedSplit(c)
@@ -770,6 +800,19 @@ class Exec:
                 except NeedSplit:
                     raise NeedSplit(z3.simplify(g))
         return cur
+
+    def narrow(self, st, v):
+        """Reduce a dynamic value to one alternative when the path condition determines its tag."""
+        if not isinstance(v, VDyn):
+            return v
+        for i, (ty, a) in enumerate(v.alts):
+            g = v.tag == i
+            if any(p.eq(g) for p in st.pc):
+                return a
+        for i, (ty, a) in enumerate(v.alts):
+            if self.implied(st, v.tag == i):
+                return a
+        return v
 
     def truth(self, st, v):
         """z3 Bool: Python truthiness of a value."""
